@@ -228,7 +228,9 @@ impl World {
                 }
                 let c = cid.unwrap();
                 let t = self.tx[&c].clone();
-                let addr = t.opened.clone().unwrap_or_else(|| t.addrs[0].clone());
+                // like the TCP transport, report the endpoint as <ip|dns>/tcp/<port> only
+                let full = t.opened.clone().unwrap_or_else(|| t.addrs[0].clone());
+                let addr: Multiaddr = full.iter().take(2).collect();
                 // the peer a TCP transport would authenticate: the one named right after /tcp
                 let peer = match self.h.dial_expected_peer(c) {
                     Some(Some(p)) => p,
